@@ -527,7 +527,8 @@ def unit_reductions():
                            bck=bck_options, nparams=nparams, allparams=allparams)
                 return "RESULT"
         p = st.vec("p", (2,), (0,))
-        which = ["rootfinder", "eq_root", "eq_anderson", "min_root", "min_gd"][c.choose(5, "which")]
+        which = ["rootfinder", "eq_root", "eq_anderson", "eq_root_mixed_case", "eq_anderson_mixed_case", "eq_anderson_upper_case",
+                 "min_root", "min_gd"][c.choose(8, "which")]
 
         def plainf(y, *params):
             return f(y, *params)
@@ -548,6 +549,16 @@ def unit_reductions():
                 c.check("equilibrium[anderson].alg_type", cap["alg_type"] == "equilibrium")
                 c.prove("equilibrium[anderson].fwd_fcn_is_f", cap["fwd_fcn"](ytest, p).v.eq(f(ytest, p).v))
                 c.prove("equilibrium[anderson].bwd_fcn_is_y_minus_f", cap["fcn"](ytest, p).v.eq((ytest - f(ytest, p)).v))
+            elif which == "eq_root_mixed_case":
+                # method names are case-insensitive: every spelling gives the same reduction
+                r = rf.equilibrium(plainf, y0, params=(p,), method="Broyden1", f_tol=1e-4)
+                c.check("equilibrium[root,any spelling].alg_type", cap["alg_type"] == "rootfinder")
+                c.prove("equilibrium[root,any spelling].fwd_fcn_is_y_minus_f", cap["fwd_fcn"](ytest, p).v.eq((ytest - f(ytest, p)).v))
+            elif which in ("eq_anderson_mixed_case", "eq_anderson_upper_case"):
+                r = rf.equilibrium(plainf, y0, params=(p,), method="Anderson_Acc" if which.endswith("mixed_case") else "ANDERSON_ACC", f_tol=1e-4)
+                c.check("equilibrium[anderson,any spelling].alg_type", cap["alg_type"] == "equilibrium")
+                c.prove("equilibrium[anderson,any spelling].fwd_fcn_is_f", cap["fwd_fcn"](ytest, p).v.eq(f(ytest, p).v))
+                c.prove("equilibrium[anderson,any spelling].bwd_fcn_is_y_minus_f", cap["fcn"](ytest, p).v.eq((ytest - f(ytest, p)).v))
             else:
                 return
             c.check(which + ".y0_params_objparams", cap["y0"] is y0 and cap["nparams"] == 1
